@@ -145,7 +145,7 @@ def cases(rng, tier):
             yield {"k": "vo", "unit": unit, "dt": dt, "step": step, "rows": rows}
             yield {"k": "key", "unit": unit, "dt": dt, "step": step, "rows": [r if 21 <= r[2] <= 108 else [r[0], r[1], 60] for r in rows], "s": 5, "scale": [3, 1], "oseed": 3}
     # ---- random arrays
-    n_ps, n_vo, n_key, n_midi, n_rn = (110, 100, 110, 42, 40) if not big else (3500, 2500, 3500, 900, 600)
+    n_ps, n_vo, n_key, n_midi, n_rn = (250, 220, 250, 90, 40) if not big else (3500, 2500, 3500, 900, 600)
     if tier == "search":
         n_ps, n_vo, n_key, n_midi, n_rn = (500, 400, 500, 100, 0)
     for _ in range(n_ps):
